@@ -105,6 +105,21 @@ def signable_case(rng, gpg: bool, stats: dict | None = None, states=None, npool=
     rng.shuffle(auth)
     if rng.random() < 0.05 and auth:
         auth.append(auth[0])  # a duplicate in the authorized list must not double count
+    if rng.random() < 0.08:
+        # an alternative spelling of a pool key in the *authorized list* itself, with the key's valid entry also filed under that spelling:
+        # the list is then ill-formed (argument error); were it accepted, one signer would count twice
+        k0 = gen.key(pool[0])
+        alt = rng.choice(gen.alt_spellings(k0.hex))
+        if alt != k0.hex:
+            if k0.hex not in auth:
+                auth.append(k0.hex)
+            auth.insert(rng.randrange(len(auth) + 1), alt)
+            e = gen.make_entry(rng, pref[0], k0, data, gpg, k0)
+            env["signatures"][k0.hex] = e[1]
+            env["signatures"][alt] = copy.deepcopy(e[1])
+            chosen[k0.hex] = "valid+alt-spelling-authorized"
+            if stats is not None:
+                stats["state:alt-spelling-in-authorized-list"] = stats.get("state:alt-spelling-in-authorized-list", 0) + 1
     return {"env": env, "auth": auth, "gpg": gpg, "states": chosen}
 
 
